@@ -273,6 +273,12 @@ def make_rows(mod, id_):
     out["keep1:other-names"] = [with_args(out["keep1"][0], {"a": int}), with_args(out["keep1"][1], {"a": str, "b": int, "extra": float})]
     out["renamed:other-names"] = [with_args(out["renamed"][0], {"c": int, "d": str}), with_args(out["renamed"][0], {"c": str})]
     out["K.keepm:other-names"] = [with_args(out["K.keepm"][0], {"self": mod.K, "a": int, "flag": bool})]
+    # ... and whose type under the vanished name holds an anonymous TypedDict (matters once a TypedDict limit is configured)
+    from monkeytype.typing import make_typed_dict
+
+    td = make_typed_dict(required_fields={"x": int, "y": str})
+    out["keep1:other-names"].append(with_args(out["keep1"][0], {"a": int, "options": td, "b": List[td]}))
+    out["renamed:other-names"].append(with_args(out["renamed"][0], {"a": td, "c": int}))
     # rows of functions that were defined in a local scope when they were traced: never decodable, whatever the module looks like now
     out["<local-scope>"] = [CallTraceRow(mod.__name__, "keep1.<locals>.inner", out["keep1"][0].arg_types, out["keep1"][0].return_type, None),
                             CallTraceRow(mod.__name__, "K.keepm.<locals>.cb", out["keep1"][1].arg_types, None, None),
@@ -394,6 +400,9 @@ def work(p):
             res.count("evaluations")
             res.count("commands_" + cmd.replace(" ", "_"))
             argv = {"stub": ["stub", mname], "stub -v": ["-v", "stub", mname], "apply": ["apply", mname]}[cmd]
+            if case.get("k"):
+                argv = ["-c", f"vf.mon.cfg:K{case['k']}_DEFAULT"] + argv
+                res.count("commands_with_typeddict_limit")
             def reset():
                 if removed_target:
                     if os.path.exists(modfile):
@@ -463,7 +472,7 @@ def run(ck):
             cid += 1
             valid = rs.sample(VALID, rs.randint(1, len(VALID)))
             cases.append({"id": f"{ck.seed}_{cid}", "seed": f"C10:{ck.seed}:{cid}", "kinds": ks, "valid": valid, "cmds": ["stub", "stub -v", "apply"],
-                          "dup": rs.random() < 0.3})
+                          "dup": rs.random() < 0.3, "k": 3 if cid % 3 == 0 else 0})
     for ks in ([kinds[:3], kinds[3:7], kinds] if quick else [list(c) for c in itertools.combinations(kinds, 2)][:20] + [kinds]):
         cid += 1
         cases.append({"id": f"{ck.seed}_{cid}", "seed": f"C10:{ck.seed}:{cid}", "kinds": ks, "valid": [], "cmds": ["stub", "stub -v", "apply"], "dup": False})
@@ -484,6 +493,7 @@ def run(ck):
     ck.need("verbose_warnings_seen", 30)
     ck.need("rows_disagreeing_on_parameter_names", 20)
     ck.need("cases_with_local_scope_rows", 10)
+    ck.need("commands_with_typeddict_limit", 30)
     return ck.finish(
         rule="stores mixing valid rows of a fixture module with stale rows of every kind (function removed / now an int / a class / local / "
         "a settable property, argument / return / yield class removed, class name rebound to a non-type, module / submodule / nested class "
